@@ -199,7 +199,7 @@ func c18Notes(rec *evid.Rec) {
 func TestC18_Rapid(t *testing.T) {
 	rec := evid.For("C18")
 	c18Notes(rec)
-	pbt.Check(t, rec, "ops", evid.Pick(8000, 200000), func(rt *rapid.T) (any, error) {
+	pbt.Check(t, rec, "ops", evid.Pick(15000, 200000), func(rt *rapid.T) (any, error) {
 		minOps := rapid.SampledFrom([]int{1, 8, 25}).Draw(rt, "minOps")
 		c := c18Case{Ops: rapid.SliceOfN(genPop(), minOps, 60).Draw(rt, "ops")}
 		var st c18Stats
